@@ -202,6 +202,11 @@ type iterH struct {
 	// expErr is set while the iterator carries a documented, expected error
 	// (SeekPrefixGE outside the bounds); Close returns it.
 	expErr bool
+	// snap / ef: the snapshot or EFOS the iterator was created on (their read
+	// restrictions apply to the iterator for its whole life, also after the
+	// snapshot handle is closed).
+	snap *snapH
+	ef   *efosH
 }
 
 // closeIter closes h.it; an expected accumulated error is not a violation.
@@ -226,6 +231,16 @@ type Events struct {
 	ManifestNew   int
 	WALNew        int
 	Stalls        int
+	// Trace, if non-nil, receives one line per event (debugging aid).
+	Trace *[]string
+}
+
+func (e *Events) trace(format string, args ...any) {
+	if e.Trace != nil {
+		e.mu.Lock()
+		*e.Trace = append(*e.Trace, fmt.Sprintf(format, args...))
+		e.mu.Unlock()
+	}
 }
 
 // Runner executes a plan against a real DB and the model.
@@ -292,14 +307,31 @@ func (e *Events) Listener() *pebble.EventListener {
 			e.BGErrors = append(e.BGErrors, err.Error())
 			e.mu.Unlock()
 		},
+		CompactionBegin: func(ci pebble.CompactionInfo) { e.trace("%s", ci.String()) },
+		FlushBegin:      func(fi pebble.FlushInfo) { e.trace("%s", fi.String()) },
+		TableCreated:    func(ti pebble.TableCreateInfo) { e.trace("%s", ti.String()) },
 		CompactionEnd: func(ci pebble.CompactionInfo) {
+			e.trace("%s", ci.String())
 			e.mu.Lock()
 			if ci.Err == nil {
 				e.Compactions[ci.Reason]++
+				intra := ci.Output.Level == 0 && len(ci.Input) > 0
+				for _, in := range ci.Input {
+					if in.Level != 0 {
+						intra = false
+					}
+				}
+				if intra && ci.Reason == "default" {
+					e.Compactions["intra-L0"]++
+				}
+				if len(ci.Input) > 2 {
+					e.Compactions["multilevel"]++
+				}
 			}
 			e.mu.Unlock()
 		},
 		FlushEnd: func(fi pebble.FlushInfo) {
+			e.trace("%s", fi.String())
 			e.mu.Lock()
 			e.Flushes++
 			if fi.Ingest {
@@ -307,7 +339,8 @@ func (e *Events) Listener() *pebble.EventListener {
 			}
 			e.mu.Unlock()
 		},
-		TableDeleted: func(pebble.TableDeleteInfo) {
+		TableDeleted: func(ti pebble.TableDeleteInfo) {
+			e.trace("%s", ti.String())
 			e.mu.Lock()
 			e.TablesDeleted++
 			e.mu.Unlock()
@@ -404,6 +437,22 @@ func (r *Runner) Candidates() (lo int, vs []*State) {
 		vs = append(vs, r.Pending)
 	}
 	return r.Durable, vs
+}
+
+// candidatesFrom returns the versions from index lo to the latest plus the
+// pending one. After a crash-and-continue reset (the version list restarts) it
+// returns everything.
+func (r *Runner) candidatesFrom(lo int) (vs []*State) {
+	r.vmu.Lock()
+	defer r.vmu.Unlock()
+	if lo >= len(r.Versions) {
+		lo = 0
+	}
+	vs = append(vs, r.Versions[lo:]...)
+	if r.Pending != nil {
+		vs = append(vs, r.Pending)
+	}
+	return vs
 }
 
 // walOn reports whether commits are logged.
@@ -995,6 +1044,8 @@ type reader struct {
 	excised [][2]string
 	// ranges: reads must stay inside one of these (EFOS).
 	ranges [][2]string
+	snap   *snapH
+	ef     *efosH
 }
 
 func closeGet(v []byte, c interface{ Close() error }, err error) ([]byte, error) {
@@ -1019,7 +1070,7 @@ func (r *Runner) reader(on string, id int) *reader {
 		if s == nil {
 			return nil
 		}
-		return &reader{what: fmt.Sprintf("snapshot#%d", id), st: r.Versions[s.ver], excised: s.excised,
+		return &reader{what: fmt.Sprintf("snapshot#%d", id), st: r.Versions[s.ver], excised: s.excised, snap: s,
 			newIter: func(o *pebble.IterOptions) (*pebble.Iterator, error) { return s.s.NewIter(o) },
 			get:     func(k []byte) ([]byte, error) { return closeGet(s.s.Get(k)) }}
 	case "efos":
@@ -1027,7 +1078,7 @@ func (r *Runner) reader(on string, id int) *reader {
 		if s == nil {
 			return nil
 		}
-		return &reader{what: fmt.Sprintf("efos#%d", id), st: r.Versions[s.ver], ranges: s.ranges,
+		return &reader{what: fmt.Sprintf("efos#%d", id), st: r.Versions[s.ver], ranges: s.ranges, ef: s,
 			newIter: func(o *pebble.IterOptions) (*pebble.Iterator, error) { return s.s.NewIter(o) },
 			get:     func(k []byte) ([]byte, error) { return closeGet(s.s.Get(k)) }}
 	case "batch":
@@ -1425,7 +1476,7 @@ func (r *Runner) step(s Step) error {
 		if err != nil {
 			return fmt.Errorf("NewIter: unexpected error: %v", err)
 		}
-		h := &iterH{it: it, m: NewIterModel(rd.st, o), created: r.stepIdx, batch: rd.batch}
+		h := &iterH{it: it, m: NewIterModel(rd.st, o), created: r.stepIdx, batch: rd.batch, snap: rd.snap, ef: rd.ef}
 		if rd.batch != nil {
 			h.base = r.Latest()
 		} else {
@@ -1462,7 +1513,7 @@ func (r *Runner) step(s Step) error {
 		if err != nil {
 			return fmt.Errorf("Clone: unexpected error: %v", err)
 		}
-		nh := &iterH{it: it, base: h.base, batch: h.batch, created: r.stepIdx}
+		nh := &iterH{it: it, base: h.base, batch: h.batch, created: r.stepIdx, snap: h.snap, ef: h.ef}
 		if h.batch != nil && s.Flag {
 			nh.m = NewIterModel(h.base.Apply(h.batch.ops), o)
 		} else {
@@ -1622,15 +1673,11 @@ func boundsAfter(cur IterOpts, op IterOp) IterOpts {
 // restrictionOf returns the reader restrictions that apply to h (snapshots with
 // later excises, EFOS ranges); nil if unrestricted.
 func (r *Runner) restrictionOf(h *iterH) *reader {
-	for _, s := range r.snaps {
-		if r.Versions[s.ver] == h.base && len(s.excised) > 0 {
-			return &reader{excised: s.excised}
-		}
+	if h.snap != nil && len(h.snap.excised) > 0 {
+		return &reader{excised: h.snap.excised}
 	}
-	for _, s := range r.efos {
-		if r.Versions[s.ver] == h.base {
-			return &reader{ranges: s.ranges}
-		}
+	if h.ef != nil {
+		return &reader{ranges: h.ef.ranges}
 	}
 	return nil
 }
